@@ -48,7 +48,7 @@ fn default_runs(prop: &str, tier: &str) -> u64 {
         "C02" => 40_000,
         "C04" => 60_000,
         "C05" => 50_000,
-        "C06" => 6_000,
+        "C06" => 4_000,
         "C07" => 25_000,
         "C08" => 60_000,
         "C09" => 30_000,
@@ -63,7 +63,7 @@ fn default_runs(prop: &str, tier: &str) -> u64 {
     };
     if tier == "thorough" {
         match prop {
-            "C06" => quick * 20,
+            "C06" => quick * 30,
             "C07" => quick * 40,
             "C17" => quick * 10,
             _ => quick * 30,
